@@ -107,6 +107,7 @@ def pAws : P String := do
     let id ← str
     let desc ← str
     let severity ← str
+    let issued ← str
     let refs ← many str
     let pkgs ← many (do
       let name ← str
@@ -115,7 +116,7 @@ def pAws : P String := do
       let release ← str
       let arch ← str
       pure ({ name, epoch, version, release, arch } : AlasPkg))
-    pure ({ id, desc, severity, refs, pkgs } : AlasUpdate))
+    pure ({ id, desc, severity, refs, pkgs, issued } : AlasUpdate))
   pure (showVulns false (awsParse (normalize codeAwsMode codeAws codeAwsDefault) updater dist ups))
 
 def pSev : P String := do
@@ -182,6 +183,7 @@ def pDef : P OvalDef := do
   let title ← str
   let desc ← str
   let severity ← str
+  let issued ← str
   let refUrls ← many str
   let advRefs ← many str
   let bugs ← many str
@@ -192,7 +194,7 @@ def pDef : P OvalDef := do
     let ok ← nat
     pure (c, ok != 0))
   let criteria ← pCriteria
-  pure { id, title, desc, severity, refUrls, advRefs, bugs, cveHrefs, platforms, cpes, criteria }
+  pure { id, title, desc, severity, refUrls, advRefs, bugs, cveHrefs, platforms, cpes, criteria, issued }
 
 def showOpt (r : Option (List Vuln)) : String :=
   match r with
@@ -220,14 +222,14 @@ def pOval : P String := do
     let dist ← str
     let root ← pRoot
     let defs ← many pDef
-    pure (showOpt (rpmDefsToVulns root (protoSingle (normalize codePhotonMode codePhoton codePhotonDefault) updater dist) defs))
+    pure (showOpt (rpmDefsToVulns root (protoSingle (normalize codePhotonMode codePhoton codePhotonDefault) updater dist true) defs))
   | "rhel" =>
     let dist ← str
     let ign ← nat
     let root ← pRoot
     let defs ← many pDef
     pure (showOpt (rpmDefsToVulns root
-      (protoRhel (normalize codeRhelMode codeRhel codeRhelDefault) updater dist (ign != 0) ovalDefUnaffected ovalDefNone ovalDefCve) defs))
+      (protoRhel (normalize codeRhelMode codeRhel codeRhelDefault) updater dist (ign != 0) ovalDefUnaffected ovalDefNone ovalDefCve rhelRepositoryKey) defs))
   | "ubuntu" =>
     let dist ← str
     let root ← pRoot
@@ -249,6 +251,7 @@ def pBool : P Bool := do
 def pOsvAdvisory : P OsvAdvisory := do
   let id ← str
   let summary ← str
+  let published ← str
   let withdrawnPast ← pBool
   let severities ← many (do
     let type ← str
@@ -275,7 +278,7 @@ def pOsvAdvisory : P OsvAdvisory := do
         pure ({ introduced, fixed, lastAffected, limit, introducedV, fixedV, lastAffectedV } : OsvEvent))
       pure ({ type, events } : OsvRange))
     pure ({ ecosystem, name, purl, hasVersions, ranges } : OsvAffected))
-  pure { id, summary, withdrawnPast, severities, dbSeverity, refs, affected }
+  pure { id, summary, withdrawnPast, severities, dbSeverity, refs, affected, published }
 
 def osvEco : OsvEcosystems :=
   { go := osvEcosystemGo, maven := osvEcosystemMaven, npm := osvEcosystemNPM, pypi := osvEcosystemPyPI, rubygems := osvEcosystemRubyGems }
